@@ -52,6 +52,12 @@ Theorem C11_max_redirects_exact : forall n t via,
 Proof. exact max_redirects_exact. Qed.
 Print Assumptions C11_max_redirects_exact.
 
+(* the default policy stops after 10 requests in the chain (limit regenerated from the source) *)
+Theorem C11_default_is_ten : forall t via,
+  permits PDefault t via = true <-> (length via < 10)%nat.
+Proof. exact default_is_ten. Qed.
+Print Assumptions C11_default_is_ten.
+
 Theorem C11_no_redirect_refuses : forall t via, permits PNo t via = false.
 Proof. exact no_redirect_refuses. Qed.
 Print Assumptions C11_no_redirect_refuses.
